@@ -18,6 +18,7 @@ impl World {
         std::fs::write(dir.join("fb.txt"), "b1\n").unwrap();
         std::fs::write(dir.join("fc.txt"), "c1\nc2").unwrap();            // the last line has no line break
         std::fs::write(dir.join("fe.txt"), "").unwrap();
+        std::fs::create_dir_all(dir.join("dir.txt")).unwrap();        // opens, but every read fails (EISDIR)
         std::fs::write(dir.join("defs_ok.txt"), "CREATE TABLE t(line = '(.*)', line[1] => x TEXT);\n").unwrap();
         std::fs::write(dir.join("defs_two.txt"), "CREATE TABLE t(line = '(.*)', line[1] => x TEXT);\nCREATE TABLE u(l2 = '(.)', l2[1] => y TEXT);\n").unwrap();
         std::fs::write(dir.join("defs_bad.txt"), "CREATE TABLE t(line = ").unwrap();
